@@ -5,6 +5,7 @@ package main
 
 import (
 	"bytes"
+	"encoding/binary"
 	"fmt"
 	"strconv"
 	"sync"
@@ -26,6 +27,11 @@ func stressCollection(capacity int, keyed bool) *column.Collection {
 	c.CreateColumn("e", column.ForEnum())
 	c.CreateColumn("b", column.ForBool())
 	c.CreateColumn("m", column.ForInt64())
+	// a fixed-size record stored through a user merge function (decode, replace, encode)
+	c.CreateColumn("rc", column.ForRecord(func() *Rec { return new(Rec) }, column.WithMerge(func(v, d *Rec) *Rec {
+		v.A, v.B = d.A, append(v.B[:0], d.B...)
+		return v
+	})))
 	return c
 }
 
@@ -44,9 +50,17 @@ func writeTag(r column.Row, t int64) {
 	r.SetString("s", strconv.FormatInt(t, 36))
 	r.SetEnum("e", enumTags[t&4095])
 	r.SetBool("b", t&1 == 1)
+	r.MergeRecord("rc", tagRec(t))
 }
 
 const poison = int64(1) << 61
+
+// tagRec: the tag as a fixed-size record (12 bytes encoded)
+func tagRec(t int64) *Rec {
+	b := make([]byte, 8)
+	binary.LittleEndian.PutUint64(b, uint64(t))
+	return &Rec{A: uint32(t), B: b}
+}
 
 // tailMerge: "=text" replaces the value by text - the result is a sub-slice of the delta
 func tailMerge(v, d string) string {
@@ -127,7 +141,12 @@ func tornRound(w *W, idx int) {
 	}
 	c.Query(func(txn *column.Txn) error {
 		for _, t := range targets {
-			txn.QueryAt(t, func(r column.Row) error { writeTag(r, 0); r.MergeString("t", "=0"); return nil })
+			txn.QueryAt(t, func(r column.Row) error {
+				writeTag(r, 0)
+				r.MergeString("t", "=0")
+				r.MergeRecord("rc", tagRec(0))
+				return nil
+			})
 		}
 		return nil
 	})
@@ -157,6 +176,11 @@ func tornRound(w *W, idx int) {
 		a, bad := readTag(r)
 		if t, ok := r.String("t"); bad == "" && (!ok || t != strconv.FormatInt(a, 36)) {
 			bad = fmt.Sprintf("row %d: a=%d (%s) but the merged string column t reads %q (present=%v), a value no transaction committed", r.Index(), a, strconv.FormatInt(a, 36), t, ok)
+		}
+		if rv, ok := r.Record("rc"); bad == "" {
+			if rec, isRec := rv.(*Rec); !ok || !isRec || rec.A != uint32(a) || len(rec.B) != 8 || binary.LittleEndian.Uint64(rec.B) != uint64(a) {
+				bad = fmt.Sprintf("row %d: a=%d but the merged record column rc reads %+v (present=%v), a value no transaction committed to this row", r.Index(), a, rv, ok)
+			}
 		}
 		if bad != "" {
 			report(how + ": " + bad)
@@ -238,7 +262,10 @@ func tornRound(w *W, idx int) {
 						return txn.With("odd").Range(func(i uint32) {
 							other := targets[r.Intn(len(targets))]
 							if other>>14 != i>>14 {
-								txn.QueryAt(other, func(row column.Row) error { check(row, "QueryAt nested in a Range callback of another block"); return nil })
+								txn.QueryAt(other, func(row column.Row) error {
+									check(row, "QueryAt nested in a Range callback of another block")
+									return nil
+								})
 							}
 						})
 					})
@@ -543,7 +570,7 @@ func mixSchema(w *W, idx, rep int) map[string]int64 {
 	hook.install(c)
 	defer hook.remove()
 	c.Query(func(txn *column.Txn) error {
-		for i := 0; i < 20000; i++ {
+		for i := 0; i < 50000; i++ {
 			txn.Insert(func(r column.Row) error {
 				writeTag(r, int64(i))
 				if i < 16384 {
@@ -551,6 +578,15 @@ func mixSchema(w *W, idx, rep int) map[string]int64 {
 				}
 				return nil
 			})
+		}
+		return nil
+	})
+	// sparse: every fifth row survives, so the row count (10 000) is far below the extent (four blocks)
+	c.Query(func(txn *column.Txn) error {
+		for i := uint32(0); i < 50000; i++ {
+			if i%5 != 0 {
+				txn.DeleteAt(i)
+			}
 		}
 		return nil
 	})
@@ -567,7 +603,7 @@ func mixSchema(w *W, idx, rep int) map[string]int64 {
 			for i := 0; i < n; i++ {
 				c.Query(func(txn *column.Txn) error {
 					for j := 0; j < 4; j++ {
-						txn.QueryAt(uint32(r.Intn(20000)), func(row column.Row) error { writeTag(row, int64(wi+1)<<40|int64(i)); return nil })
+						txn.QueryAt(uint32(r.Intn(10000))*5, func(row column.Row) error { writeTag(row, int64(wi+1)<<40|int64(i)); return nil })
 					}
 					if i%4 == 0 {
 						txn.Insert(func(row column.Row) error { writeTag(row, int64(wi+1)<<40|int64(i)); return nil })
